@@ -668,10 +668,12 @@ class LiteralUnmarshaller(AbstractUnmarshaller[LiteralT], tp.Generic[LiteralT]):
     """Unmarshaller that will enforce an input conform to a defined [`typing.Literal`][].
 
     Note:
-        We will attempt to decode the value into a real Python object if the input
-        fails initial membership evaluation.
+        If the input fails initial membership evaluation, we will try its text
+        (bytes-like input is decoded, so a `str` member is found in any carrier),
+        then attempt to decode the value into a real Python object.
 
     See Also:
+        - [`typelib.serdes.decode`][]
         - [`typelib.serdes.load`][]
     """
 
@@ -691,6 +693,11 @@ class LiteralUnmarshaller(AbstractUnmarshaller[LiteralT], tp.Generic[LiteralT]):
     def __call__(self, val: tp.Any) -> LiteralT:
         if val in self.values:
             return val
+        # The text of a `str` member is that member, whether it arrives as
+        #   `str`, `bytes`, `bytearray` or `memoryview`.
+        text = serdes.decode(val)
+        if text in self.values:
+            return text
         decoded = serdes.load(val)
         if decoded in self.values:
             return decoded  # type: ignore[return-value]
